@@ -157,13 +157,87 @@ Fixpoint u16_stream (be : bool) (st : u16_state) (chunks : list bytes) : bytes :
   | c :: cs => let (o, st') := u16_feed be st c in o ++ u16_stream be st' cs
   end.
 
+(* ---- UTF-8 decoder (encoding_rs, -E utf-8): validation with replacement of every maximal ill-formed
+        subpart by U+FFFD, one byte at a time (WHATWG UTF-8 decoder: bytes needed, lower / upper boundary) ---- *)
+Record u8_core := mk_u8 { v_pend : bytes; v_need : nat; v_lo : N; v_hi : N }.
+Definition u8_idle : u8_core := mk_u8 [] 0 128 191.
+
+Definition u8_lead (x : byte) : bytes * u8_core :=
+  (if x <? 128 then ([x], u8_idle)
+   else if (194 <=? x) && (x <=? 223) then ([], mk_u8 [x] 1 128 191)
+   else if x =? 224 then ([], mk_u8 [x] 2 160 191)
+   else if x =? 237 then ([], mk_u8 [x] 2 128 159)
+   else if (225 <=? x) && (x <=? 239) then ([], mk_u8 [x] 2 128 191)
+   else if x =? 240 then ([], mk_u8 [x] 3 144 191)
+   else if x =? 244 then ([], mk_u8 [x] 3 128 143)
+   else if (241 <=? x) && (x <=? 243) then ([], mk_u8 [x] 3 128 191)
+   else (replacement, u8_idle))%N.
+
+Definition u8_core_step (st : u8_core) (x : byte) : bytes * u8_core :=
+  match v_need st with
+  | 0 => u8_lead x
+  | S n =>
+    if ((v_lo st <=? x) && (x <=? v_hi st))%N then
+      match n with
+      | 0 => (v_pend st ++ [x], u8_idle)
+      | _ => ([], mk_u8 (v_pend st ++ [x]) n 128 191)
+      end
+    else let (o, st') := u8_lead x in (replacement ++ o, st')      (* the byte is looked at again *)
+  end.
+
+Definition u8_core_finish (st : u8_core) : bytes :=
+  match v_need st with 0 => [] | _ => replacement end.
+
+Fixpoint u8_core_feed (st : u8_core) (l : bytes) : bytes * u8_core :=
+  match l with
+  | [] => ([], st)
+  | x :: xs => let (o1, st1) := u8_core_step st x in
+               let (o2, st2) := u8_core_feed st1 xs in (o1 ++ o2, st2)
+  end.
+
+(* new_decoder_with_bom_removal: bytes are held back while they could still be the mark EF BB BF *)
+Record u8_state := mk_u8s { w_held : option bytes; w_core : u8_core }.     (* Some h: still at the start, h held *)
+Definition u8_init : u8_state := mk_u8s (Some []) u8_idle.
+
+Definition u8_step (st : u8_state) (x : byte) : bytes * u8_state :=
+  match w_held st with
+  | None => let (o, c) := u8_core_step (w_core st) x in (o, mk_u8s None c)
+  | Some h =>
+    let h' := h ++ [x] in
+    if bytes_eqb h' [239; 187; 191]%N then ([], mk_u8s None (w_core st))
+    else if is_prefix_of h' [239; 187; 191]%N then ([], mk_u8s (Some h') (w_core st))
+    else let (o, c) := u8_core_feed (w_core st) h' in (o, mk_u8s None c)
+  end.
+
+Fixpoint u8_feed (st : u8_state) (l : bytes) : bytes * u8_state :=
+  match l with
+  | [] => ([], st)
+  | x :: xs => let (o1, st1) := u8_step st x in
+               let (o2, st2) := u8_feed st1 xs in (o1 ++ o2, st2)
+  end.
+
+Definition u8_finish (st : u8_state) : bytes :=
+  match w_held st with
+  | None => u8_core_finish (w_core st)
+  | Some h => let (o, c) := u8_core_feed (w_core st) h in o ++ u8_core_finish c
+  end.
+
+Definition utf8_to_utf8 (s : bytes) : bytes := let (o, st) := u8_feed u8_init s in o ++ u8_finish st.
+
+Fixpoint u8_stream (st : u8_state) (chunks : list bytes) : bytes :=
+  match chunks with
+  | [] => u8_finish st
+  | c :: cs => let (o, st') := u8_feed st c in o ++ u8_stream st' cs
+  end.
+
 (* what ends up being searched, for the encodings modelled (None = identity = no transcoding reader effect) *)
 Definition decode_with (e : option enc) (s : bytes) : option bytes :=
   match e with
   | None => Some s
   | Some Utf16le => Some (utf16_to_utf8 false s)
   | Some Utf16be => Some (utf16_to_utf8 true s)
-  | Some _ => None                                   (* UTF-8 validation / legacy tables: not modelled *)
+  | Some Utf8 => Some (utf8_to_utf8 s)
+  | Some (OtherEnc _) => None                        (* legacy tables: not modelled *)
   end.
 
 Definition searched_bytes (m : encoding_mode) (stream : bytes) : option bytes :=
